@@ -682,6 +682,11 @@ def call_builtin(self, name, args, kwargs, st, node):
             raise Untranslatable("super() outside a method with a typed self")
         yield ("super", me, cur), st
         return
+    if name in ("sympy.var", "var", "sympy.Symbol"):
+        E = Opaque("Expr")
+        k = self.coerce(a[0], Str, st)
+        yield Val(E, z3.Function("expr_var", z3.StringSort(), E.sort())(k.z)), st
+        return
     if name in ("randint", "random.randint"):
         lo, hi = self.as_int(a[0], st).z, self.as_int(a[1], st).z
         self.fork_raise(st, lo > hi, "ValueError")
@@ -857,6 +862,10 @@ def call_method(self, recv, name, args, kwargs, st, node):
             fnode, _, _ = self.src.find(c)
             static = any(isinstance(d, ast.Name) and d.id == "staticmethod" for d in fnode.decorator_list)
             yield from self.call_contract(c, ([] if static else [recv]) + list(args), kwargs, st, node)
+            return
+        if isinstance(t, Fun):
+            # a method of a function-valued argument (e.g. sympy Function(...).subs): a provider call
+            yield from self.call_provider(ProviderCall(t.nm, recv.z), args, kwargs, st, node)
             return
         if isinstance(t, Opaque) and (t.nm, name) in self.reg.opaque_methods:
             ats, rt = self.reg.opaque_methods[(t.nm, name)]
@@ -1035,8 +1044,10 @@ def call_method(self, recv, name, args, kwargs, st, node):
             if name == "items":
                 kv = self.view_of(recv, st)
                 vals = self.dvals(st, recv)
-                yield View(kv.length, lambda i: PyTuple([kv.at(i), self.valid_ref(
-                    st, Val(t.v, z3.Select(vals, kv.at(i).z)))]), None, distinct=True), st
+                w = View(kv.length, lambda i: PyTuple([kv.at(i), self.valid_ref(
+                    st, Val(t.v, z3.Select(vals, kv.at(i).z)))]), None, distinct=True)
+                w.keys_seq = getattr(kv, "keys_seq", None)
+                yield w, st
                 return
             if name == "update" and t.counter:
                 x = self.iter_value(a[0], st)
